@@ -1,5 +1,6 @@
 import HcipyVerif.Lemmas.GridGeom
 import Mathlib.Algebra.Order.Field.Basic
+import Mathlib.Tactic.LinearCombination
 
 /-! Helper lemmas for C11: weights under scale / shift / reverse. -/
 set_option linter.unusedSimpArgs false
@@ -307,5 +308,62 @@ theorem autoWeights_ne_none (s : System) (c : Coords) (w : Weights) (h : autoWei
     | (split at h
        · injection h with h; subst h; simp
        · simp at h)
+
+
+/-! ### moved from the property file: weights getter, area, sampling, origin -/
+
+theorem Grid.getWeights_ne_none (g : Grid) (w : Weights) (h : g.getWeights = some w) : w ≠ .none := by
+  unfold Grid.getWeights at h
+  cases hw : g.weights with
+  | none => rw [hw] at h; exact autoWeights_ne_none _ _ _ h
+  | scalar x => rw [hw] at h; injection h with h; subst h; simp
+  | array x => rw [hw] at h; injection h with h; subst h; simp
+
+theorem Grid.getWeights_stored (g : Grid) (h : g.weights ≠ .none) : g.getWeights = some g.weights := by
+  unfold Grid.getWeights
+  cases hw : g.weights with
+  | none => exact absurd hw h
+  | scalar x => rfl
+  | array x => rfl
+
+theorem ratSum_replicate (n : Nat) (w : Rat) : ratSum (List.replicate n w) = (n : Rat) * w := by
+  induction n with
+  | zero => simp [ratSum]
+  | succ n ih => simp only [List.replicate_succ, ratSum, ih]; push_cast; ring
+
+theorem area_prod : ∀ (a : List RegAxis),
+    ((natProd (a.map (·.dim)) : Nat) : Rat) * ratProd ((a.map (·.delta)).map absQ) =
+      ratProd (a.map fun x => (x.dim : Rat) * absQ x.delta)
+  | [] => by simp [natProd, ratProd]
+  | x :: a => by
+    have ih := area_prod a
+    simp only [List.map_cons, natProd, ratProd] at ih ⊢
+    rw [← ih]; push_cast; ring
+
+theorem sub_super_axis (k : Nat) (hk : 1 ≤ k) (a : RegAxis) : (a.supersample k).subsample k = a := by
+  have hk0 : (k : Rat) ≠ 0 := by exact_mod_cast (by omega : k ≠ 0)
+  cases a with
+  | mk d n z =>
+    simp only [RegAxis.supersample, RegAxis.subsample, RegAxis.mk.injEq]
+    refine ⟨by field_simp, Nat.mul_div_cancel n (by omega), by field_simp; ring⟩
+
+theorem centred_zero_mem (δ : Rat) (n : Nat) (hn : 1 ≤ n) : (0 : Rat) ∈ (centredAxis δ n 0).values := by
+  simp only [RegAxis.values, centredAxis, List.mem_map, List.mem_range]
+  refine ⟨n / 2, Nat.div_lt_self (by omega) (by omega), ?_⟩
+  have hn2 : (n : Rat) = 2 * ((n / 2 : Nat) : Rat) + ((n % 2 : Nat) : Rat) := by
+    exact_mod_cast (Nat.div_add_mod n 2).symm
+  linear_combination (-δ / 2) * hn2
+
+theorem origin_mem : ∀ (axes : List (List Rat)), (∀ ax ∈ axes, (0 : Rat) ∈ ax) →
+    List.replicate axes.length 0 ∈ tensorPoints axes
+  | [], _ => by simp [tensorPoints]
+  | ax :: rest, h => by
+    simp only [tensorPoints, List.length_cons, List.replicate_succ, List.mem_flatMap, List.mem_map]
+    exact ⟨_, origin_mem rest (fun a ha => h a (by simp [ha])), 0, h ax (by simp), rfl⟩
+
+theorem truncNat_pos (x : Rat) (h : 1 ≤ x) : 1 ≤ truncNat x := by
+  unfold truncNat
+  have : (1 : Int) ≤ x.floor := Rat.le_floor_iff.mpr (by simpa using h)
+  omega
 
 end HcipyVerif.Grid
